@@ -127,7 +127,7 @@ def run(tier, replay_file=None):
     cons = dict(Inst='{"i1","i2"}', Timeouts='{2}', Ticks='{2}', KVals='{0,3}', StepVals='{0}', Stop='2', MaxNow='4', Scen='{"base"}',
                 Ops='{"Start","Begin","Step","Results","End","Stop","Metrics","Tick","Refused"}', Adapter="TRUE", Compress="FALSE",
                 Kinds="{" + ",".join('"%s"' % k for k in kinds) + "}", Creds="{" + ",".join('"%s"' % c for c in sorted(CREDS)) + "}", Dev='{}')
-    mc = tlc.run("Server", dict(cons, L='99', Kinds='{"POST /<instance_uuid>/run-step", "GET /save-state"}', Creds='{"absent","wrong"}'),
+    mc = tlc.run("Server", dict(cons, L='0', Kinds='{"POST /<instance_uuid>/run-step", "GET /save-state"}', Creds='{"absent","wrong"}'),
                  invariants=["AliveOK", "GoneOK", "Continuity"], properties=["AuthOK", "Isolated"], view="View", spec="Spec", timeout=3000)
     if mc.violation:
         R.violation("spec:" + mc.violation, {"trace": mc.trace[:3000]})
